@@ -50,6 +50,13 @@ type c07In struct {
 	FirstStatus int    `json:"firstStatus"`
 	FirstBody   []byte `json:"firstBody"`
 
+	// Method "" = POST; "GET" = a body-less GET of the same resource (cacheable).
+	// CacheMax > 0: the pool has a memoryCache (GET, code 200, expiration 1h) with that
+	// maxEntryBytes.  In a reload history a change of Pool / Proxy / CacheMax between two
+	// steps is a reload of the PIPELINE (Pipeline.Inherit), a change of Srv / Path one of the mux.
+	Method   string `json:"method"`
+	CacheMax int    `json:"cacheMax"`
+
 	// Mirror: the proxy has a mirrorPool (second recording backend) whose filter matches
 	// requests carrying "X-Mirror: 1"; MirrorHit: the client sends that header
 	Mirror    bool `json:"mirror"`
@@ -115,6 +122,9 @@ func c07PipelineYAMLFor(addr string, in *c07In) string {
 
 func c07PipelineYAMLMirror(addr, mirrorAddr string, in *c07In) string {
 	y := c07PipelineYAMLZip(addr, in.Pool, in.Proxy, in.Zip, in.MinLen)
+	if in.CacheMax > 0 {
+		y = strings.Replace(y, "  pools:\n  - ", fmt.Sprintf("  pools:\n  - memoryCache:\n      expiration: 1h\n      maxEntryBytes: %d\n      codes: [200]\n      methods: [GET]\n    ", in.CacheMax), 1)
+	}
 	if in.Mirror && mirrorAddr != "" {
 		y += fmt.Sprintf("  mirrorPool:\n    filter:\n      headers:\n        \"X-Mirror\":\n          exact: \"1\"\n    servers:\n    - url: http://%s\n", mirrorAddr)
 	}
@@ -193,7 +203,11 @@ func c07Serve(fr *c07Front, be *c07Backend, in *c07In) (obs c07Obs) {
 	reqBody, respBody := c07Bodies(in)
 	before := len(be.Seen())
 	var req bytes.Buffer
-	req.WriteString("POST /c07/x HTTP/1.1\r\nHost: front.test\r\nContent-Type: application/octet-stream\r\n")
+	method := in.Method
+	if method == "" {
+		method = "POST"
+	}
+	req.WriteString(method + " /c07/x HTTP/1.1\r\nHost: front.test\r\nContent-Type: application/octet-stream\r\n")
 	if in.AE != "" {
 		fmt.Fprintf(&req, "Accept-Encoding: %s\r\n", in.AE)
 	}
@@ -289,14 +303,19 @@ func c07RunReload(h *c07ReloadIn) (obs c07ReloadObs) {
 	first := &h.Steps[0]
 	be := c07StartBackend(nil)
 	defer be.Close()
-	fr := c07StartFront(c07ServerYAML(first.Srv, first.Path), c07PipelineYAMLZip(be.Addr(), first.Pool, first.Proxy, first.Zip, first.MinLen))
+	fr := c07StartFront(c07ServerYAML(first.Srv, first.Path), c07PipelineYAMLFor(be.Addr(), first))
 	defer fr.Close()
 	srv, path := first.Srv, first.Path
+	pool, proxy, cmax := first.Pool, first.Proxy, first.CacheMax
 	for i := range h.Steps {
 		st := &h.Steps[i]
 		if st.Srv != srv || st.Path != path {
 			srv, path = st.Srv, st.Path
 			fr.Reload(c07ServerYAML(srv, path))
+		}
+		if st.Pool != pool || st.Proxy != proxy || st.CacheMax != cmax {
+			pool, proxy, cmax = st.Pool, st.Proxy, st.CacheMax
+			fr.ReloadPipeline(c07PipelineYAMLFor(be.Addr(), st))
 		}
 		be.SetRaw(c07Script(st))
 		obs.Steps = append(obs.Steps, c07Serve(fr, be, st))
